@@ -122,6 +122,7 @@ Example C13_bytes_example :
   array_intersection_w (enc (VNum (NInt 1))) (enc c13_a) [] = Ok (enc (VArr [VNum (NInt 1)])) /\
   array_except_w (enc (VObj [([107], VBool true)])) (enc c13_b) [] = Ok (enc (VArr [VObj [([107], VBool true)]])).
 Proof. vm_compute. repeat split; reflexivity. Qed.
+Print Assumptions C13_bytes_example.
 
 (* ---- the sharpened statement (SetSize.v): NO size hypothesis on the result.  The theorems above keep
    `wf_size (result) = true` for a first argument that is not an array (the result is then the one-element array built
@@ -170,6 +171,7 @@ Example C13_no_size_hypothesis_example :
   array_except_w [49] (enc c13_b) [] = Ok (enc (VArr [])) /\
   array_except_w [34; 122; 34] (enc c13_b) [] = Ok (enc (VArr [VStr [122]])).
 Proof. vm_compute. repeat split; reflexivity. Qed.
+Print Assumptions C13_no_size_hypothesis_example.
 
 (* ---- laws that PIN the functions (Extra13.v; the algebraic laws above would also hold for `distinct := id`).
    Identity of elements is item_eqb (identical entry word and payload; on well-formed values: equal normal forms,
